@@ -30,7 +30,7 @@ ASSUMPTIONS = [
     "descriptor states are restricted to those BondDescriptor.__init__ can produce ([] has no id and UNSPECIFIED order)",
 ]
 OUTSIDE = ["stereo prefix characters (rejected by the constructor; checked to raise)"]
-REQUIRED_LABELS = ["compat==rule", "symmetric", "weights-not-in-pc", "bond-order-from-prefix", "filter==rule", "text compat==rule"]
+REQUIRED_LABELS = ["compat==rule", "compat==rule after earlier questions", "symmetric", "weights-not-in-pc", "bond-order-from-prefix", "filter==rule", "text compat==rule"]
 
 
 def bounds(tier):
@@ -42,6 +42,7 @@ def cases(tier):
     out = []
     for wf in ("none", "scalar", "list"):
         out.append({"name": f"state-pair/{wf}", "kind": "state", "wf": wf})
+    out.append({"name": "state-triple/history", "kind": "triple"})
     for wf in ("none", "scalar", "list"):
         out.append({"name": f"text-single/{wf}", "kind": "text", "wf": wf, "single": True, "plen": 2, "nid": 2})
     for wf in ("none", "scalar"):
@@ -85,6 +86,25 @@ def run_case(case, g, tier, res):
             wvars = [n for n in used if n.split("!")[0].endswith("_w") or n.split("!")[0][-3:-1] == "_t"]
             c.prove(len(wvars) == 0, "weights-not-in-pc", _cex_pair(ia, ib, r1, "depends on a weight"))
             return (str(ia["sym"]), str(ib["sym"]), r1)
+
+        explore_case(res, h, tier, on_path=on_path)
+    elif kind == "triple":
+        # the answer for one pair must not depend on what the same objects were asked before
+        def h(c):
+            a, ia = sym_descriptor_state(c, g, "a", with_weight=False)
+            b, ib = sym_descriptor_state(c, g, "b", with_weight=False)
+            b2, ib2 = sym_descriptor_state(c, g, "b2", with_weight=False)
+            seq = [(a, ia, b, ib), (a, ia, b2, ib2), (b2, ib2, a, ia), (b, ib, a, ia), (a, ia, b, ib)]
+            for k, (x, ix, y, iy) in enumerate(seq):
+                r = x.is_compatible(y)
+                f = rule_formula(ix, iy)
+
+                def detail(mv, c, k=k, ix=ix, iy=iy):
+                    texts = [[list(state_text(p_, mv, c)), list(state_text(q_, mv, c))] for (_, p_, _, q_) in seq[: k + 1]]
+                    return ("is_compatible:depends on earlier questions", f"after the questions {texts[:-1]}, is_compatible{tuple(map(tuple, texts[-1]))} differs from the conjugation rule",
+                            {"kind": "sequence", "pairs": texts})
+                c.prove(f == r, "compat==rule after earlier questions", detail)
+            return "ok"
 
         explore_case(res, h, tier, on_path=on_path)
     elif kind == "text":
@@ -281,6 +301,22 @@ def replay(rp, gb):
         bad = (bool(r1) != exp) or (bool(r1) != bool(r2)) or codes != (ra[2], rb[2]) \
             or (ta != "[]" and a.descriptor_id != ra[1]) or (tb != "[]" and b.descriptor_id != rb[1])
         return bad, f"is_compatible={r1}/{r2} rule={exp} orders={codes} expected={(ra[2], rb[2])}"
+    if rp["kind"] == "sequence":
+        objs = {}
+
+        def ob(pt):
+            key = tuple(pt)
+            if key not in objs:
+                objs[key] = gb.BondDescriptor(pt[1], 0, pt[0], 0)
+            return objs[key]
+
+        bad = []
+        for pa, pb in rp["pairs"]:
+            r = ob(pa).is_compatible(ob(pb))
+            exp = _rule(_parse_ref(*pa), _parse_ref(*pb))
+            if bool(r) != exp:
+                bad.append((pa, pb, bool(r), exp))
+        return bool(bad), f"answers differing from the rule in sequence: {bad}"
     if rp["kind"] == "filter":
         from gbigsmiles.core import get_compatible_bond_descriptor_ids
 
